@@ -41,8 +41,21 @@ H_MARK = "«H»"
 QUICK = [True]
 
 
+def _with_probes(prog):
+    """append plain calls of every def that works with and without content: after any handled exception `caller` must be
+    what it was (nothing), so they print "(nc)" """
+    body = list(prog["body"])
+    for n in prog["body"]:
+        if n["t"] == "def" and n["body"] and n["body"][0].get("t") == "if" and n["body"][0]["arms"][0][0] == "caller" \
+                and "*" not in n["sig"] and not n.get("decorator"):
+            req = [p.strip() for p in n["sig"].split(",") if p.strip() and "=" not in p]
+            body.append({"t": "text", "s": "|probe:"})
+            body.append({"t": "expr", "e": "%s(%s)" % (n["name"], ", ".join("%s='s'" % p for p in req)), "__probe": True})
+    return dict(prog, body=body)
+
+
 def strategy():
-    return tprog.programs(FEATURES, max_depth=3, ndefs=(1, 3), body_len=(2, 5))
+    return tprog.programs(FEATURES, max_depth=3, ndefs=(1, 3), body_len=(2, 5), optional_caller=75).map(_with_probes)
 
 
 # ---- addressing nodes ----------------------------------------------------
@@ -107,6 +120,20 @@ def plant(prog, rpath, ridx, kind, hpath=None, hidx=None):
         hl = get(p, hpath)
         node = hl[hidx]
         hl[hidx] = {"t": "try", "body": [node], "handlers": [["Boom", [{"t": "text", "s": H_MARK}]]], "ind": "", "sp": " "}
+        # right after the handler: a def that works with and without content is called plainly - `caller` must be restored
+        probes = [n for n in p["body"] if n.get("t") == "expr" and n.get("__probe")]
+        inside_def = False
+        cur = p
+        for step in hpath:
+            cur = cur[step]
+            if isinstance(cur, dict) and cur.get("t") == "def":
+                inside_def = True  # a probe inside a def could call that very def: unbounded recursion
+        if probes and not inside_def:
+            hl.insert(hidx + 1, dict(probes[0]))
+            if rpath[:len(hpath)] == hpath and len(rpath) > len(hpath) and isinstance(rpath[len(hpath)], int) and rpath[len(hpath)] > hidx:
+                rpath[len(hpath)] += 1
+            elif rpath == hpath and ridx > hidx:
+                ridx += 1
         n = len(hpath)
         if rpath[:n] == hpath and len(rpath) > n and rpath[n] == hidx:
             rpath = hpath + [hidx, "body", 0] + rpath[n + 1:]
